@@ -72,9 +72,12 @@ structure St where
   errCode : Option Int
   /-- error-handler contexts pushed and not yet popped -/
   hctx : Nat
+  /-- `return_marks`, top first: the height of the GOSUB stack at every call in progress
+  (the register-stack heights recorded with them are in `RbModel.Frames`) -/
+  marks : List Nat
   deriving Repr, DecidableEq, Inhabited
 
-def St.init : St := ⟨0, [], [], .none, none, none, 0⟩
+def St.init : St := ⟨0, [], [], .none, none, none, 0, []⟩
 
 /-- what the environment decides at a step -/
 inductive Ev where
@@ -125,13 +128,26 @@ def raise (f : Finder) (s : St) (code : Int) : Outcome :=
 /-- `take_last_error_address`: clears the code first, then takes the address -/
 def takeErr (s : St) : St × Option Nat := ({ s with errCode := none, errAddr := none }, s.errAddr)
 
+/-- `go_sub_address_stack.truncate(n)`: keep the `n` oldest pending GOSUBs (the list is top first) -/
+def cut (g : List Nat) (n : Nat) : List Nat := g.drop (g.length - n)
+
+/-- RESUME label: the label lives at the module level, the procedures in progress are left
+(`context.unwind_to_global()`, `return_address_stack.clear()`), and the GOSUBs pending inside them are
+forgotten: the stack is cut back to its height at the OUTERMOST call (`return_marks.first()`) -/
+def leaveProcs (s : St) : St :=
+  { s with ret := [], marks := [],
+           gosub := match s.marks.getLast? with
+             | some m => cut s.gosub m
+             | none => s.gosub }
+
 /-- the three RESUME instructions: `target` computes the address from the error address;
-`leave` = RESUME label: the label lives at the module level, the procedures in progress are left
-(`context.unwind_to_global()`, `return_address_stack.clear()`) -/
+`leave` = RESUME label -/
 def resumeWith (f : Finder) (s : St) (target : Nat → Option Nat) (leave : Bool := false) : Outcome :=
   match takeErr s with
   | (s', some a) => match target a with
-    | some n => .cont { s' with pc := n, hctx := s'.hctx - 1, ret := if leave then [] else s'.ret }
+    | some n =>
+      let s1 : St := { s' with pc := n, hctx := s'.hctx - 1 }
+      .cont (if leave then leaveProcs s1 else s1)
     | none => .stuck
   | (s', none) => raise f s' 20
 
@@ -163,9 +179,14 @@ def stepInstr (f : Finder) (i : Instr) (ev : Ev) (s : St) : Outcome :=
   | .resumeNext => resumeWith f s f.next
   | .resumeLabel t => resumeWith f s (fun _ => tgt t) true
   | .halt => .halted s
-  | .pushRet a => .cont { s with ret := a :: s.ret, pc := s.pc + 1 }
+  | .pushRet a => .cont { s with ret := a :: s.ret, marks := s.gosub.length :: s.marks, pc := s.pc + 1 }
   | .popRet => match s.ret with
-    | a :: rest => .cont { s with ret := rest, pc := a }
+    | a :: rest =>
+      -- the GOSUBs still pending in the procedure that returns are forgotten (`return_marks.pop()`)
+      .cont { s with ret := rest, pc := a, marks := s.marks.tail,
+                     gosub := match s.marks with
+                       | m :: _ => cut s.gosub m
+                       | [] => s.gosub }
     | [] => .stuck
   | _ => match ev with
     | .error c => raise f s c
